@@ -247,3 +247,12 @@ pub fn div_bracket(n: i64, d: i64, q: i64) -> bool {
     let lo = 1i128 << (a - b);
     (q as i128) >= (lo >> 1) && (q as i128) < (lo << 1)
 }
+
+/// scale gap between the product a*b and the addend c (None unless all three are real): (ea + eb) - ec in units of
+/// the decode exponents; used only to split obligations into exhaustive sub-cases
+pub fn fma_gap(a: u64, b: u64, c: u64, n: u32, es: u32) -> Option<i32> {
+    match (decode(a, n, es), decode(b, n, es), decode(c, n, es)) {
+        (Dec::Real { e: ea, .. }, Dec::Real { e: eb, .. }, Dec::Real { e: ec, .. }) => Some(ea + eb + 32 - ec),
+        _ => None,
+    }
+}
